@@ -292,6 +292,9 @@ class Inliner:
                 p.arg for p in new.args.args) | _assigned_names(new.body))
             if not changed:
                 break
+        from .normalize import beta_reduce
+        for k, st in enumerate(new.body):
+            new.body[k] = beta_reduce(st)
         ast.fix_missing_locations(new)
         for parent in ast.walk(new):
             for child in ast.iter_child_nodes(parent):
@@ -421,7 +424,7 @@ class Inliner:
             mapping = {}
             locals_ = _assigned_names(body)
             for p, arg in m.items():
-                if _simple(arg) and p not in locals_:
+                if (_simple(arg) or isinstance(arg, ast.Lambda)) and p not in locals_:
                     mapping[p] = arg
                 else:
                     tmp = p if (p not in caller_names) else '_inl%d_%s' % (self.counter, p)
@@ -494,7 +497,7 @@ class Inliner:
                     m = _bind(helper, node, skip_self)
                 except _Fail:
                     return node
-                if not all(_simple(a) for a in m.values()):
+                if not all(_simple(a) or isinstance(a, ast.Lambda) for a in m.values()):
                     return node
                 if skip_self:
                     m[helper.args.args[0].arg] = ast.Name(id='self', ctx=ast.Load())
